@@ -47,6 +47,7 @@ TEval ==
 TBatch ==
   /\ IsEv("Batch")
   /\ Chk("EachSystemEvaluatesItsOwnRates", Ev.calls > 0 /\ Ev.own_params /\ Ev.own_state)
+  /\ Chk("RateArrayZeroInitialisedPerSystem", Ev.cleared)    \* (a thread works on several systems one after the other)
   /\ UNCHANGED rvars
 TNext == TAssign \/ TFinish \/ TEval \/ TBatch
 TSpec == TInit /\ [][TNext]_<<rvars, tid, l>>
